@@ -47,8 +47,18 @@ def mk_routine(items):
     return Routine(gen)
 
 
-def mk_fn(k, c):
-    return Function(lambda x: k * x + c)
+NAMES = ['x', 'depth', 'rate', 'q']
+
+
+def lit(d):
+    return repr(num(d))
+
+
+def mk_fn(f):
+    """Function(lambda p0, p1=d1, ...: c + k0*p0 + k1*p1 ...): named parameters, trailing defaults"""
+    ps = ', '.join(NAMES[n] if d is None else '%s=%s' % (NAMES[n], lit(d)) for n, d in f['params'])
+    body = lit(f['c']) + ''.join(' + %s*%s' % (lit(k), NAMES[n]) for k, (n, _d) in zip(f['coef'], f['params']))
+    return Function(eval('lambda %s: %s' % (ps, body)))
 
 
 def leaf(d, fns):
@@ -135,7 +145,8 @@ def deep(o, x):
     if isinstance(o, (bool, int, float)):
         return enc_num(o)
     if isinstance(o, AbstractFunction):
-        return ['c', deep(o(x), x)]
+        pos, kw = x                       # the argument record: every callable gets the same call
+        return ['c', deep(o(*pos, **kw), x)]
     if isinstance(o, Stream):
         return ['s', [deep(i, x) for i in take(o)]]
     if isinstance(o, Pattern):
@@ -189,8 +200,8 @@ def main():
     for c in cases:
         try:
             if c['k'] == 'expr':
-                x = num(c['x'])
-                fns = [mk_fn(num(k), num(cc)) for k, cc in c['fns']]
+                x = ([num(v) for v in c['pos']], {NAMES[n]: num(v) for n, v in c['kw']})
+                fns = [mk_fn(f) for f in c['fns']]
                 out.append(deep(build(c['e'], fns), x))
             else:
                 out.append(deep(run_util(c), None))
